@@ -69,7 +69,7 @@ def _expected(cfg):
         return 'ok', acc[1] + 1, False
     if acc[0] == 'pubkey':
         return 'ok', nkeys, True
-    return 'timeout', nkeys, True
+    return 'timeout', nkeys, True      # 'never' and 'rechallenge': no CNXN ever arrives
 
 
 def _one_connect(ctx, w, st_holder, cfg, mods, tag):
@@ -207,16 +207,16 @@ HARNESSES = {'connect': h_connect}
 def _cfgs(maxkeys, strays_opts, callbacks):
     out = []
     for nkeys in range(0, maxkeys + 1):
-        accepts = [('none',), ('never',), ('pubkey',)] + [('key', k) for k in range(nkeys)]
+        accepts = [('none',), ('never',), ('pubkey',), ('rechallenge',)] + [('key', k) for k in range(nkeys)]
         for acc in accepts:
             for cb in callbacks:
-                if cb is not None and acc[0] not in ('pubkey', 'never', 'key'):
+                if cb is not None and acc[0] not in ('pubkey', 'never', 'key', 'rechallenge'):
                     continue
                 if cb is not None and acc[0] == 'key' and acc[1] != nkeys - 1:
                     continue
                 out.append({'nkeys': nkeys, 'accept': list(acc), 'strays': 0, 'callback': cb})
             # stray packets before the j-th device answer
-            nanswers = 1 if acc[0] == 'none' else (1 + (acc[1] + 1 if acc[0] == 'key' else nkeys) + (1 if acc[0] == 'pubkey' and nkeys else 0))
+            nanswers = 1 if acc[0] == 'none' else (1 + (acc[1] + 1 if acc[0] == 'key' else nkeys) + (1 if acc[0] in ('pubkey', 'rechallenge') and nkeys else 0))
             if nkeys == 0 and acc[0] != 'none':
                 nanswers = 1
             for strays in strays_opts:
